@@ -16,6 +16,9 @@ C15.dgdl   the datagram client's receive loop waits against a deadline fixed
 C15.cfg    the per-request limit multi_stream applies is the value of its own
            `response_timeout` setting (the field its getter returns), and
            every stream::Config field the transport reads can be set.
+C15.synth  a reply a client transport makes up itself from the *request*
+           (SERVFAIL of the load balancer) is marked as a response (QR set):
+           it has to satisfy is_answer for its own request like any reply.
 C15.once   stream demux removes the slot before delivery and re-inserts only
            for unfinished streams; Queries keeps `count` in step with the
            occupied slots (decrement only when a slot was actually vacated).
@@ -46,6 +49,7 @@ def run(ctx):
     rule_slot(ctx, F)
     rule_dgdl(ctx, F)
     rule_cfg(ctx, F)
+    rule_synth(ctx, F)
 
 
 def _has_fact(facts, pred):
@@ -427,3 +431,26 @@ def rule_cfg(ctx, F):
             ctx.ob(R, "net::client::stream::Config", "field %s, which the transport reads, can be set" % f, f in written,
                    "the stream transport reads Config.%s but no setter ever writes it: whatever timeout the user configures, the "
                    "transport goes on using the default for this field" % f)
+
+
+def rule_synth(ctx, F):
+    R = "C15.synth"
+    ctx.floor(R, 1)
+    n = 0
+    for p, b in sorted(F.bodies.items()):
+        if not re.match(r"^net::client::\w+::serve_fail(::<.*>)?$", p):
+            continue
+        from_request = False
+        for cb, cbb, ct in F.callers_of("^" + re.escape(p) + "$"):
+            s = show(deep_strip(cb.term_of_operand(ct["args"][0])))
+            if "to_message(" in s or "request_msg" in s:
+                from_request = True
+        if not from_request:
+            continue
+        n += 1
+        qr = [const_value(deep_strip(b.term_of_operand(t["args"][1]))) for _, t in b.calls()
+              if (t["fn"] or "").endswith("Header::set_qr") and len(t["args"]) >= 2]
+        ctx.ob(R, b, "the made-up reply is marked as a response", any(v in (1, True) for v in qr),
+               "%s builds a reply from the request's header and never sets QR: the caller gets Ok(message) that is not a "
+               "response and does not satisfy is_answer for its own request" % p.split("::")[-2])
+    ctx.ob(R, "net::client", "scanned", n >= 1, "no reply synthesised from a request found any more", nontrivial=False)
